@@ -538,6 +538,23 @@ def _call(ctx, base, cls, name, obj, *args):
   pairwise (monotonicity) oracles.  Returns the result or None."""
   from vf.monitors import contracts
   ok, r = ctx.call(base, getattr(obj, name), *args, _allowed=(contracts.ContractFail,))
+  # results handed out earlier must still report what they reported when they were returned
+  held = _S.setdefault("held", [])
+  for item in list(held):
+    r0, snap0, what0 = item
+    ctx.count("earlier_results_reread")
+    now = ty.fields(getattr(r0, "output", r0))
+    if now != snap0:
+      ctx.violation({"op": what0, "what": "earlier_result_rewritten_by_later_call"},
+                    "%s result reported %r when returned, %r after a later %s call" % (what0, snap0, now, name), None)
+      held.remove(item)
+  if ok and r is not None:
+    try:
+      held.append((r, ty.fields(getattr(r, "output", r)), name))
+    except Exception:      # pylint: disable=broad-except
+      pass
+    if len(held) > 6:
+      held.pop(0)
   if ok:
     return r
   if isinstance(r, contracts.ContractFail):
